@@ -666,6 +666,8 @@ type gxCase struct {
 	Before   int64       `json:"before"`
 	After    int64       `json:"after"`
 	Dirty    bool        `json:"dirty"` // memory was held before the case started: nothing is judged
+	Sizes    []int64     `json:"sizes"`  // bytes held by each torrent before the pass
+	Afters   []int64     `json:"afters"` // ... and after it
 }
 
 func runGx(c *gxCase) {
@@ -692,6 +694,10 @@ func runGx(c *gxCase) {
 	}
 	config.MemoryMark = c.Mark
 	c.Before = alloc.Bytes()
+	c.Sizes, c.Afters = nil, nil
+	for _, t := range ts {
+		c.Sizes = append(c.Sizes, t.Pieces.Bytes())
+	}
 	func() {
 		defer func() {
 			if x := recover(); x != nil {
@@ -710,6 +716,9 @@ func runGx(c *gxCase) {
 		last = now
 	}
 	c.After = alloc.Bytes()
+	for _, t := range ts {
+		c.Afters = append(c.Afters, t.Pieces.Bytes())
+	}
 	for _, t := range ts {
 		kctx, kcancel := context.WithTimeout(context.Background(), 2*time.Second)
 		t.Kill(kctx)
@@ -752,5 +761,12 @@ func gxTerm(c *gxCase) string {
 	if c.Before < 0 || c.After < 0 {
 		c.Before, c.After = 0, 999999999999
 	}
-	return fmt.Sprintf("mk_gx %d %d %d %d %d %s %s", c.ID, c.Mark, rc, c.Before, c.After, cq.Bool(c.Panic != ""), cq.Bool(c.Dirty))
+	zl := func(l []int64) string {
+		var xs []string
+		for _, x := range l {
+			xs = append(xs, fmt.Sprintf("(%d)%%Z", x))
+		}
+		return "[" + strings.Join(xs, "; ") + "]"
+	}
+	return fmt.Sprintf("mk_gx %d %d %d %d %d %s %s %s %s", c.ID, c.Mark, rc, c.Before, c.After, cq.Bool(c.Panic != ""), cq.Bool(c.Dirty), zl(c.Sizes), zl(c.Afters))
 }
